@@ -151,12 +151,18 @@ def oracle(c, hres, sl):
             if j < consumed:
                 if res != want:
                     return 'failure injected after %d of %d value bytes came back as %r' % (j, consumed, res)
-                if pulled != j:
-                    return 'pulled %s bytes, %d were delivered' % (pulled, j)
+                # j = what the schedule offers before the failure; a reader is handed min(offer, request) per
+                # call, and how much the decoder requests per call is its own business (chunk sizes)
+                if pulled is not None and int(pulled) > j:
+                    return 'pulled %s bytes, at most %d were on offer before the failure' % (pulled, j)
                 return None
             if c['entry'] != 'deserialize_reader':
                 return None if res in (want, 'err InvalidData NotAllBytesRead') or res.startswith('ok') else 'unexpected %r' % res
-            # the failure lies after the value: it must not be reached
+            # the failure lies after the bytes the schedule OFFERS for the value: a decoder that takes every
+            # offer in full never reaches it; one that asks for less per call (its chunk size is its own
+            # business) reaches it with the value still incomplete, and must then hand it back unchanged
+            if res == want and pulled is not None and pulled < consumed:
+                return None
         elif consumed is None:
             return None if res == want or res == de else 'neither the injected failure nor the slice error: %r (slice: %s)' % (res, de)
     if c['entry'] == 'deserialize_reader':
